@@ -141,6 +141,22 @@ Theorem C48_sdk_wildcards : forall pat s,
 Proof. exact wild_match_spec. Qed.
 Print Assumptions C48_sdk_wildcards.
 
+(* the interceptors (authz/grpc_authz_server_interceptors.go): an RPC reaches the service
+   handler only if its context was complete, so that the policy was evaluated (defect = 0),
+   it matches no deny rule and it matches some allow rule; in particular an RPC whose request
+   view cannot be built (no metadata / peer / method / connection, local address without a
+   port) is rejected, never passed on *)
+Theorem C48_handler_only_if_allowed : forall p es defect d, new_static p = Some es ->
+  snd (intercept es defect d) = true ->
+  defect = 0 /\ ~ Exists (srule_matches d) (s_deny p) /\ Exists (srule_matches d) (s_allow p).
+Proof. exact handler_only_if_allowed. Qed.
+Print Assumptions C48_handler_only_if_allowed.
+
+Theorem C48_handler_iff_complete_and_authorized : forall es defect d,
+  snd (intercept es defect d) = true <-> defect = 0 /\ is_authorized d es = true.
+Proof. exact handler_iff. Qed.
+Print Assumptions C48_handler_iff_complete_and_authorized.
+
 Theorem C48_translator_rejects_duplicate_names : forall p es, translate p = Some es ->
   NoDup (map sr_name (s_deny p)) /\ NoDup (map sr_name (s_allow p)).
 Proof. exact translate_nodup. Qed.
